@@ -2123,8 +2123,26 @@ impl KyroDbService for KyroDBServiceImpl {
         }
 
         let start = Instant::now();
-        match engine.query_with_source(global_doc_id, None) {
-            Some((embedding, served_from)) => {
+        // The metadata above was read before the vector. An insert / overwrite / delete that
+        // commits in between would pair the metadata of one write (or none at all) with the
+        // vector of another, so what is returned is re-read in one critical section and the
+        // visibility checks are applied to exactly that pair.
+        let found = engine.query_with_source(global_doc_id, None).and_then(|(_, served_from)| {
+            let (embedding, metadata) = engine.get_document_with_metadata(global_doc_id)?;
+            if let Some(tenant) = &tenant {
+                if metadata.get("__tenant_idx__") != Some(&tenant.tenant_index.to_string()) {
+                    return None;
+                }
+            }
+            if !req.namespace.is_empty()
+                && metadata.get("__namespace__").map(|s| s.as_str()).unwrap_or("") != req.namespace
+            {
+                return None;
+            }
+            Some((embedding, metadata, served_from))
+        });
+        match found {
+            Some((embedding, internal_metadata, served_from)) => {
                 let latency_ns = start.elapsed().as_nanos() as u64;
                 let latency_ms = latency_ns as f64 / 1_000_000.0;
                 self.state.metrics.record_query_latency(latency_ns);
